@@ -796,6 +796,22 @@ impl Edges {
             let upper = Version::new(rest.iter().chain([&(last + 1)]));
             let lower = Version::new(strip_trailing_zeros(release));
             Ranges::from_range_bounds(lower..upper)
+        } else if specifier.operator().is_star() {
+            // The trailing `0`s of a star version are significant for its upper bound (`==3.0.*`
+            // is different from `==3.*`), but the lower bound is normalized like any other
+            // version in the tree.
+            let release = specifier.version().release();
+            let [rest @ .., last] = release else {
+                unreachable!("a version has at least one segment");
+            };
+            let upper = Version::new(rest.iter().chain([&(last + 1)]));
+            let lower = Version::new(strip_trailing_zeros(release));
+            let range = Ranges::from_range_bounds(lower..upper);
+            if *specifier.operator() == Operator::NotEqualStar {
+                range.complement()
+            } else {
+                range
+            }
         } else {
             release_specifier_to_range(specifier)
         };
